@@ -22,6 +22,8 @@ import (
 	"errors"
 	"fmt"
 	"net"
+	"os"
+	"path/filepath"
 	"sort"
 	"strconv"
 	"strings"
@@ -37,13 +39,29 @@ import (
 	testpb "github.com/tochemey/goakt/v4/test/data/testpb"
 )
 
-// hang guard only: generous until a first hang has been seen in this process (then the verdict is already
-// "broken" and the remaining cases only need to be reported quickly)
-var stuckSeen atomic.Bool
+// Hang guard. It only exists to turn a lost message into a verdict and never fires on the unchanged tree.
+// Generous (300 s) until a hang has been seen; a hang is remembered for the rest of the process and, through a
+// marker file keyed by the parent process (check.py), by the harness processes the same check starts later
+// (search, shrinking), so that a build that loses a sentinel is reported in minutes rather than hours.
+var stuckSeen atomic.Int32
+
+func markerPath() string {
+	return filepath.Join(os.TempDir(), fmt.Sprintf("verif_c18_hung_%d", os.Getppid()))
+}
+
+func hungBefore() bool {
+	st, err := os.Stat(markerPath())
+	return err == nil && time.Since(st.ModTime()) < time.Hour
+}
+
+var hungAtStart = hungBefore()
 
 func waitLimit() time.Duration {
-	if stuckSeen.Load() {
-		return 3 * time.Second
+	switch n := stuckSeen.Load(); {
+	case n >= 3:
+		return time.Second
+	case n >= 1 || hungAtStart:
+		return 5 * time.Second
 	}
 	return 300 * time.Second
 }
@@ -115,7 +133,8 @@ type world struct {
 
 func (w *world) problem(s string) {
 	if strings.HasPrefix(s, "stuck") {
-		stuckSeen.Store(true)
+		stuckSeen.Add(1)
+		_ = os.WriteFile(markerPath(), []byte("1"), 0o644)
 	}
 	w.mu.Lock()
 	w.problems = append(w.problems, s)
